@@ -6,7 +6,7 @@
    restricted to the retained terms; and the result passes the executable statements of C01, C02
    and C03 again.  The theorems say what its reference functions mean. *)
 From Coq Require Import Relations.
-From HpoV Require Import Gen.Consts Model.Base Model.Group Model.Onto Model.Query Model.SubOnt Run.World Run.C01 Run.C11 Run.C14 Proofs.C01P Proofs.C14P Proofs.ClosureP Proofs.DistP Proofs.SubP.
+From HpoV Require Import Gen.Consts Model.Base Model.Group Model.Onto Model.Query Model.SubOnt Run.World Run.C01 Run.C11 Run.C14 Proofs.C01P Proofs.C14P Proofs.ClosureP Proofs.DistP Proofs.SubP Proofs.QgoodP Proofs.SubLinksP.
 
 Theorem C14_retained_on_shortest_chain : forall ts n l t root dl,
   sd n ts l root = Some dl ->
@@ -48,8 +48,24 @@ Theorem C14_model_refusal : forall o root leaves acc e, foldM (leaf_step o root)
                                      path_anc (q_fuel o) o lt root = Ok None.
 Proof. exact sub_ids_refuses. Qed.
 
+(* THE STRUCTURE OF A SUB-ONTOLOGY: for every source ontology with exact caches (every Builder-built
+   one: C11_builder_ontologies_are_qgood), every root and every list of leaves of it, a successful
+   sub_ontology call returns an ontology that (1) again has unique ids, resolving links, sorted
+   groups and EXACT ancestor caches, (2) has exactly the retained ids as its terms, and (3) has
+   exactly the INDUCED links: c -> p is a link of the result iff both are retained and c -> p is a
+   link of the source *)
+Theorem C14_model_structure : forall icf o root leaves o', qgood o ->
+  (forall l, In l leaves -> In l (ar_keys (o_arena o))) ->
+  sub_ontology icf o root leaves = Ok o' ->
+  exists ids, sub_ids o root leaves = Ok ids /\
+    qgood o' /\
+    (forall x, In x (ar_keys (o_arena o')) <-> In x ids) /\
+    (forall c p, parent_rel (o_arena o') c p <-> In c ids /\ In p ids /\ parent_rel (o_arena o) c p).
+Proof. exact sub_ontology_structure. Qed.
+
 Print Assumptions C14_retained_on_shortest_chain.
 Print Assumptions C14_result_closure_exact.
 Print Assumptions C14_model_retained_set.
 Print Assumptions C14_model_retained_on_shortest_chain.
 Print Assumptions C14_model_refusal.
+Print Assumptions C14_model_structure.
